@@ -44,6 +44,15 @@ def block(s, w, rng, comp=True):
 
 
 def cases(rng, tier):
+    # long, weakly charged windows (0 < FCR < 0.01) and repeated / equal groups in the composition call
+    for sq in ("G" * 60 + "K" + "G" * 131, "GS" * 40 + "E" + "GS" * 60, "K" + "G" * 256):
+        for w in (101, 150, len(sq)):
+            yield Case(["q linSigma %s %d" % (sq, w), "q linFCR %s %d" % (sq, w), "q linNCPR %s %d" % (sq, w)], {"kind": "weakly-charged-window"})
+    for sq in gen.sparse_charge_seqs(rng, 6 if tier == "quick" else 60):
+        yield Case(block(sq, rng.choice([5, 6, len(sq)]), rng, comp=False), {"kind": "sparse-charges"})
+    for gl in ([["E", "D"], ["K", "R"], ["D", "E"]], [["K"], ["k"]], [["A", "G"], ["A", "G"], ["S"]], [["E", "D"], ["E", "D"]]):
+        for w in (1, 3):
+            yield Case(["q linComp %s %d %s" % ("MKDEEDRSAGSTQKLLWYEK", w, gtok(gl))], {"kind": "repeated-groups"})
     # the same query several times in a row on one object
     for c in gen.repeated_call_cases(rng, 8 if tier == "quick" else 60, ['linNCPR 3', 'linComp 3 -'], gen.CLAMP_BAND[:8] if False else ()):
         yield c
